@@ -4,6 +4,8 @@ CONSTANTS
   KS = {"r_class", "r_attr", "d_ident", "d_str", "d_urlq", "media", "keyframes", "comment"}
   CS = {"bmp", "private", "dquote", "backslash"}
   SH = {"dig"}
+  CT = {}
+  FN = {}
 INVARIANT Generated
 INVARIANT EmitVec
 CHECK_DEADLOCK FALSE
